@@ -148,6 +148,78 @@ Theorem eq_permutation : forall s s', ND s -> Permutation s s' -> seq rd_eqb s s
 Proof. exact set_eq_perm. Qed.
 Print Assumptions eq_permutation.
 
+(* Set(items) and update(iterable): duplicates collapse, also inside the argument *)
+Theorem init_collapses_duplicates : forall l x,
+  ND (sof_list rd_eqb l) /\ rmem x (sof_list rd_eqb l) = rmem x l.
+Proof. exact sof_list_spec. Qed.
+Print Assumptions init_collapses_duplicates.
+
+Theorem update_iterable_spec : forall s l x,
+  ND s -> ND (supdate rd_eqb s l) /\ rmem x (supdate rd_eqb s l) = rmem x s || rmem x l.
+Proof. exact supdate_spec. Qed.
+Print Assumptions update_iterable_spec.
+
+Theorem remove_spec : forall s x,
+  ND s ->
+  (rmem x s = false -> sremove rd_eqb x s = Lib eValueError) /\
+  (rmem x s = true ->
+     sremove rd_eqb x s = Ok (filter (fun k => negb (rd_eqb k x)) s) /\
+     forall y, rmem y (filter (fun k => negb (rd_eqb k x)) s) = rmem y s && negb (rd_eqb y x)).
+Proof. exact sremove_spec. Qed.
+Print Assumptions remove_spec.
+
+Theorem discard_spec : forall s x y,
+  ND s -> rmem y (sdiscard rd_eqb x s) = rmem y s && negb (rd_eqb y x).
+Proof. exact sdiscard_spec. Qed.
+Print Assumptions discard_spec.
+
+Theorem pop_spec : forall s : list rdata,
+  (s = [] -> spop s = Internal iKeyError) /\
+  (forall x s', spop s = Ok (x, s') -> s = s' ++ [x]) /\
+  (s <> [] -> exists x s', spop s = Ok (x, s')).
+Proof. exact spop_spec. Qed.
+Print Assumptions pop_spec.
+
+(* the algebra stated on the machine: for every operation history the hypotheses above hold
+   by the invariant, so every in-place / copying / predicate step obeys set theory *)
+Theorem set_history_inplace : forall ops w a r o s os,
+  let st := sexec [] ops in
+  nth_error st r = Some s -> nth_error st o = Some os -> inplace_alg w = Some a ->
+  exists s', sstep st (SInpl w r (Some o)) = (set_nth st r s', N) /\
+    ND s' /\ (forall x, rmem x s' = alg_bool a (rmem x s) (rmem x os)) /\
+    (r <> o -> s' = alg_order rdata rd_eqb a s os).
+Proof. exact set_machine_inplace. Qed.
+Print Assumptions set_history_inplace.
+
+Theorem set_history_copying : forall ops w d r o s os st',
+  let st := sexec [] ops in
+  nth_error st r = Some s -> nth_error st o = Some os ->
+  assign st d (salg (func_alg w) s os false) = Some st' ->
+  sstep st (SFunc w d r (Some o)) = (st', N) /\
+  ND (salg (func_alg w) s os false) /\
+  (forall x, rmem x (salg (func_alg w) s os false) = alg_bool (func_alg w) (rmem x s) (rmem x os)) /\
+  salg (func_alg w) s os false = alg_order rdata rd_eqb (func_alg w) s os.
+Proof. exact set_machine_copying. Qed.
+Print Assumptions set_history_copying.
+
+Theorem set_history_predicates : forall ops w r o s os,
+  let st := sexec [] ops in
+  nth_error st r = Some s -> nth_error st o = Some os ->
+  sstep st (SPred w r (Some o)) = (st, ob (spred w s os)) /\
+  (spred PEq s os = true <-> forall x, rmem x s = rmem x os) /\
+  (spred PSubset s os = true <-> forall x, rmem x s = true -> rmem x os = true) /\
+  (spred PSuperset s os = true <-> forall x, rmem x os = true -> rmem x s = true) /\
+  (spred PDisjoint s os = true <-> forall x, rmem x s = true -> rmem x os = true -> False) /\
+  spred PNe s os = negb (spred PEq s os).
+Proof. exact set_machine_pred. Qed.
+Print Assumptions set_history_predicates.
+
+(* no aliasing effects in dns.set.Set: an operation changes no set but its target *)
+Theorem set_frame : forall st op r,
+  starget op <> Some r -> nth_error (fst (sstep st op)) r = nth_error st r.
+Proof. exact sstep_frame. Qed.
+Print Assumptions set_frame.
+
 (* ---------------- Rdataset / ImmutableRdataset / RRset ---------------- *)
 
 (* every reachable state, for all operation sequences over all registers and aliasings: members
@@ -254,6 +326,21 @@ Theorem rdataset_copying_forms : forall w self other,
 Proof. exact r_func_ok. Qed.
 Print Assumptions rdataset_copying_forms.
 
+Theorem rdataset_history_inplace : forall ops w a r o s os,
+  let st := rexec [] ops in
+  nth_error st r = Some s -> nth_error st o = Some os -> r <> o ->
+  kd s <> KImm -> inplace_alg w = Some a ->
+  mergeable s os -> is_singleton (typ s) = false ->
+  exists s', rstep st (RInpl w r o) = (set_nth st r s', N) /\
+    (forall x, rmem x (items s') = alg_bool a (rmem x (items s)) (rmem x (items os))) /\
+    items s' = alg_order rdata rd_eqb a (items s) (items os) /\
+    ttl s' = (match a with
+              | ADiff => ttl s
+              | _ => if isempty s then ttl os else Z.min (ttl s) (ttl os)
+              end).
+Proof. exact rds_machine_inplace. Qed.
+Print Assumptions rdataset_history_inplace.
+
 (* the TTL of every rdataset, after any operation sequence, is the minimum of the non-empty
    list of TTL literals merged into it (directly or through other sets) since it was last
    empty; the list is the ghost history computed by gstep *)
@@ -280,6 +367,24 @@ Theorem immutable_rdataset_unchanged : forall st op r s,
   nth_error (fst (rstep st op)) r = Some s.
 Proof. exact imm_unchanged. Qed.
 Print Assumptions immutable_rdataset_unchanged.
+
+(* rdataset equality: class, type, covered type and the member *set* (orders and TTLs are not
+   compared); two RRsets also need equal owner names *)
+Theorem rdataset_eq_spec : forall a b,
+  wf a -> wf b ->
+  (r_eq a b = true <->
+   cls a = cls b /\ typ a = typ b /\ cov a = cov b /\
+   (kd a = KRR -> kd b = KRR -> name_eqb (oname a) (oname b) = true) /\
+   (forall x, rmem x (items a) = rmem x (items b))).
+Proof. exact r_eq_spec. Qed.
+Print Assumptions rdataset_eq_spec.
+
+Theorem immutable_mutators_raise : forall st op r s,
+  nth_error st r = Some s -> kd s = KImm -> op_self op = Some r -> imm_blocked op = true ->
+  match op with RInpl _ _ o => nth_error st o <> None | _ => True end ->
+  rstep st op = (st, E eTypeError).
+Proof. exact imm_mutators_raise. Qed.
+Print Assumptions immutable_mutators_raise.
 
 (* ---------------- immutability guard, constify ---------------- *)
 
